@@ -442,3 +442,103 @@ func deepRangeLoops(f *ssa.Function) []deepLoop {
 	})
 	return out
 }
+
+// coversWord: the character class contains every word character [0-9A-Za-z_].
+func coversWord(re *syntax.Regexp) bool {
+	if re.Op != syntax.OpCharClass {
+		return false
+	}
+	has := func(r rune) bool {
+		for i := 0; i+1 < len(re.Rune); i += 2 {
+			if re.Rune[i] <= r && r <= re.Rune[i+1] {
+				return true
+			}
+		}
+		return false
+	}
+	for _, r := range []rune{'0', '5', '9', 'A', 'M', 'Z', '_', 'a', 'm', 'z'} {
+		if !has(r) {
+			return false
+		}
+	}
+	// the sample above is exact for classes made of whole ranges; confirm the three ranges fully
+	for r := '0'; r <= 'z'; r++ {
+		isW := r >= '0' && r <= '9' || r >= 'A' && r <= 'Z' || r == '_' || r >= 'a' && r <= 'z'
+		if isW && !has(r) {
+			return false
+		}
+	}
+	return true
+}
+
+// acceptsAllWords: some alternative of the pattern matches every non-empty string of word characters as a whole
+// (one or more characters of a class that contains all of [0-9A-Za-z_]). Decided on the parsed pattern; nothing is matched.
+func acceptsAllWords(re *syntax.Regexp) bool {
+	switch re.Op {
+	case syntax.OpCapture:
+		return acceptsAllWords(re.Sub[0])
+	case syntax.OpAlternate:
+		for _, s := range re.Sub {
+			if acceptsAllWords(s) {
+				return true
+			}
+		}
+		return false
+	case syntax.OpPlus:
+		return coversWord(re.Sub[0])
+	case syntax.OpRepeat:
+		return re.Min <= 1 && re.Max == -1 && coversWord(re.Sub[0])
+	case syntax.OpConcat:
+		// w w*  (and w w* w* ...)
+		if len(re.Sub) >= 2 && coversWord(re.Sub[0]) {
+			for _, s := range re.Sub[1:] {
+				if !(s.Op == syntax.OpStar && coversWord(s.Sub[0])) {
+					return false
+				}
+			}
+			return true
+		}
+	}
+	return false
+}
+
+func init() { register("C09", ruleC09WordToken); register("C02", ruleC09WordToken); register("C01", ruleC09WordToken) }
+
+// ruleC09WordToken: a key is a token whatever its first character.
+func ruleC09WordToken(c *Ctx) {
+	c.Doc("c09.word-token", "the selector patterns (_FULLPATTERN, _ARRAYPATTERN, _PIPEPATTERN; analysed as data with regexp/syntax) each have an alternative that takes ANY non-empty run of word characters [0-9A-Za-z_] as one token: FindAllString silently skips what no alternative matches, so a key alternative narrowed to identifiers makes `1st` read the key `st` and `2024` read the whole row")
+	pk := c.P.All[modPath]
+	if pk == nil {
+		return
+	}
+	n := 0
+	sc := pk.Types.Scope()
+	for _, name := range sc.Names() {
+		k, ok := sc.Lookup(name).(*types.Const)
+		if !ok || !strings.HasSuffix(name, "PATTERN") || k.Val().Kind() != constant.String {
+			continue
+		}
+		n++
+		re, err := syntax.Parse(constant.StringVal(k.Val()), syntax.Perl)
+		if err != nil {
+			c.Fail("c09.word-token", "pattern/"+name, "-", "the selector pattern does not parse: "+err.Error())
+			continue
+		}
+		c.Check(acceptsAllWords(re), "c09.word-token", "pattern/"+name, c.P.Pos(sc.Lookup(name).Pos()), "an alternative matches every run of word characters", "no alternative of "+name+" matches every run of word characters: a key such as `2024` or `1st` is skipped or cut by the tokenizer and the column reads another key (or the whole row)")
+	}
+	if n < 3 {
+		c.Unknown("c09.word-token", "patterns", "-", fmt.Sprintf("only %d selector patterns found", n))
+	}
+}
+
+
+// isFreshSliceTerm: the term is a slice made on the spot (make([]T, n) with a variable or a constant size, or a literal).
+func isFreshSliceTerm(t *Term) bool {
+	if t == nil {
+		return false
+	}
+	if t.Op == "make" && strings.HasPrefix(t.Name, "slice") {
+		return true
+	}
+	return t.Op == "slice" && len(t.Args) > 0 && t.Args[0].Op == "alloc" && (strings.HasPrefix(t.Args[0].Name, "makeslice") || strings.HasPrefix(t.Args[0].Name, "slicelit"))
+}
